@@ -62,7 +62,8 @@ class C13(Prop):
     level = "fault_enumeration"
     rule = (
         "cases = a deterministic workflow (1-4 jobs fanned out with ctx.send_event and/or a returned event to a retrying worker step "
-        "with num_workers 1..3, idempotent state writes, a collect_events gatherer, a final step returning the StopEvent) served by the "
+        "with num_workers 1..3, idempotent state writes, a collect_events gatherer, a final step returning the StopEvent; in some cases one job "
+        "exhausts its retries so the run ends failed, or the run is cancelled through the service at a generated instant) served by the "
         "real WorkflowServer runtime chain over a MemoryWorkflowStore or SqliteWorkflowStore. The uninterrupted run gives the expected "
         "result and its persisted tick count K. Then for EVERY k in 1..K the run is repeated with a store that freezes after the k-th "
         "persisted tick; at that moment every task of the process is killed, all in-memory objects are dropped, a new server with a new "
@@ -84,7 +85,21 @@ class C13(Prop):
         srv.M()
 
     def strategy(self, tier):
-        return st.tuples(srv.det_strategy(timers=False, hitl=False), st.sampled_from(["memory", "memory", "sqlite"])).map(lambda p: dict(p[0], store=p[1]))
+        def mk(p):
+            c = dict(p[0], store=p[1], end_mode=p[2], cancel_at=p[3])
+            if c["end_mode"] == "fail":
+                # one job fails on every attempt: the run ends with a step failure after exhausting the retry budget
+                c["jobs"] = [dict(j) for j in c["jobs"]]
+                c["jobs"][p[4] % len(c["jobs"])]["fail"] = c["attempts"]
+            return c
+
+        return st.tuples(
+            srv.det_strategy(timers=False, hitl=False),
+            st.sampled_from(["memory", "memory", "sqlite"]),
+            st.sampled_from(["stop", "stop", "stop", "fail", "cancel"]),
+            st.sampled_from([0.5, 1.5, 2.5, 3.5, 5.5]),
+            st.integers(0, 3),
+        ).map(mk)
 
     # one life-1 run up to an optional crash point; returns info
     async def _first_life(self, case, store_kind, tmpdir, crash_after, log, probe_rec):
@@ -93,12 +108,24 @@ class C13(Prop):
         proxy = srv.StoreProxy(real, crash_after_tick=crash_after)
         life = await srv.start_life(proxy, srv.det_factory(case, log))
         hd = await life.server._service.start_workflow(life.wf, "h1", start_event=ge.GStart())
+        if case.get("end_mode") == "cancel":
+
+            async def canceller():
+                await asyncio.sleep(case["cancel_at"])
+                if not proxy.crashed.is_set():
+                    try:
+                        await life.server._service.cancel_handler("h1")
+                    except Exception:  # noqa: BLE001
+                        pass
+
+            asyncio.create_task(canceller())
         return real, proxy, life, hd
 
     def run_case(self, case):
         case = json.loads(json.dumps(case))
         r = CaseResult()
         store_kind = case.pop("store")
+        end_mode = case.get("end_mode", "stop")
         expected = srv.expected_result(case, None)
         horizon = 60.0 + 6 * sum(j["d"] * case["attempts"] for j in case["jobs"])
         stats = {"prefixes": 0, "inside": 0, "unpersisted": 0, "finalised": 0, "idle_marked": 0, "clean": 0}
@@ -168,8 +195,15 @@ class C13(Prop):
             boot.run_virtual(reference)
         except Runaway as e:
             raise RuntimeError(f"inconclusive reference: {e}") from None
-        if out.get("ref_status") != "completed" or srv.canon(out.get("ref_result")) != srv.canon(expected):
-            r.v("uninterrupted_run_wrong", status=out.get("ref_status"), result=srv.canon(out.get("ref_result"))[:120])
+        ref_status = out.get("ref_status")
+        if end_mode == "fail":
+            ok_ref = ref_status == "failed"
+        elif end_mode == "cancel":
+            ok_ref = ref_status in ("cancelled", "completed")  # the run may finish before the cancel instant
+        else:
+            ok_ref = ref_status == "completed"
+        if not ok_ref or (ref_status == "completed" and srv.canon(out.get("ref_result")) != srv.canon(expected)):
+            r.v("uninterrupted_run_wrong", status=ref_status, end_mode=end_mode, result=srv.canon(out.get("ref_result"))[:120])
             return r
         K = out["K"]
         if K > MAX_TICKS:
@@ -200,24 +234,27 @@ class C13(Prop):
                 stats["idle_marked"] += 1
             if not unpersisted and not res.get("idle_marked"):
                 stats["clean"] += 1
-            attrs = dict(last_tick=last, unpersisted_work_at_crash=unpersisted, marked_idle_at_crash=bool(res.get("idle_marked")), store=store_kind)
+            attrs = dict(last_tick=last, unpersisted_work_at_crash=unpersisted, marked_idle_at_crash=bool(res.get("idle_marked")), store=store_kind, end_mode=end_mode)
             if res.get("no_crash"):
                 r.v("crash_point_not_reached", k=k, K=K)
                 continue
             if ends_run:
                 stats["finalised"] += 1
-                if res["status"] != "completed" or srv.canon(res["result"]) != srv.canon(expected):
-                    r.v("ended_run_not_finalised", status=res["status"], **attrs)
+                if res["status"] != ref_status or (ref_status == "completed" and srv.canon(res["result"]) != srv.canon(expected)):
+                    r.v("ended_run_not_finalised", status=res["status"], want=ref_status, **attrs)
                 if res["reentered"]:
                     r.v("ended_run_reexecuted_steps", n=res["reentered"], **attrs)
                 continue
+            # interior crash point: a failing workflow fails again; a run whose cancel request died with the process simply completes
+            want_inside = "failed" if end_mode == "fail" else "completed"
             if res["status"] == "running":
                 r.v("resumed_run_lost_work", **attrs)
-            elif res["status"] != "completed":
-                r.v("resumed_run_wrong_status", status=res["status"], error=str(res.get("error"))[:80], **attrs)
-            elif srv.canon(res["result"]) != srv.canon(expected):
+            elif res["status"] != want_inside:
+                r.v("resumed_run_wrong_status", status=res["status"], want=want_inside, error=str(res.get("error"))[:80], **attrs)
+            elif want_inside == "completed" and srv.canon(res["result"]) != srv.canon(expected):
                 r.v("resumed_run_wrong_result", **attrs)
         r.classes.append("store_" + store_kind)
+        r.classes.append("end_" + end_mode + "_" + str(ref_status))
         if stats["unpersisted"]:
             r.classes.append("crash_with_unpersisted_work")
         if stats["idle_marked"]:
